@@ -21,7 +21,7 @@ Proof.
   assert (Horig : forall na' se' k, In (na', se') (sessions h') -> In k (sess_keys se') ->
             (exists se0, In (na', se0) (sessions h) /\ In k (sess_keys se0) /\ s_counter se0 <= s_counter se') \/
             (na' = na /\ In k (sess_keys se))).
-  { intros na' se' k Hin Hk. destruct (HN _ _ Hin) as [[se0 [H1 [H2 H3]]] | [H1 [_ [H3 _]]]].
+  { intros na' se' k Hin Hk. destruct (HN _ _ Hin) as [[se0 [H1 [H2 H3]]] | [H1 [H3 _]]].
     - destruct (H3 k Hk) as [H4 | H4]; [left; eauto | right; exact H4].
     - right. split; [exact H1 | apply H3; exact Hk]. }
   split.
@@ -44,26 +44,28 @@ Proof.
   - intros k cnt Hu. apply in_or_app. left. exact (G2 k cnt Hu).
 Qed.
 
-(* the first part of new_session: store the new keys *)
+(* the part of new_session after the purge of the expired sessions: store the new keys *)
 Definition install (c : config) (s : st) (na : naddr) (se : session) : st :=
-  let (h1, cur) := sess_get (hs s) na in
+  let (h1, cur) := sess_get c (hs s) na in
   match cur with
   | Some cs =>
     with_hs s (sess_put h1 na {| s_enc := s_enc se; s_dec := s_dec se; s_old := Some (s_enc cs, s_dec cs);
-                                 s_await := s_await se; s_counter := s_counter cs |})
+                                 s_await := s_await se; s_counter := s_counter cs; s_used := s_used cs |})
   | None => with_hs s (sess_insert c h1 na se)
   end.
 
 Lemma new_session_install c s na se skip now :
   new_session c s na se skip now =
-  match snd (sess_get (hs s) na) with
+  let s0 := remove_expired_sessions c s in
+  match snd (sess_get c (hs s0) na) with
   | Some _ =>
-    let s2 := replay_active_requests c (install c s na se) na skip now in
+    let s2 := replay_active_requests c (install c s0 na se) na skip now in
     if fix_d2a c then send_pending_requests c s2 na now else s2
-  | None => send_pending_requests c (install c s na se) na now
+  | None => send_pending_requests c (install c s0 na se) na now
   end.
 Proof.
-  unfold new_session, install. destruct (sess_get (hs s) na) as [h1 cur]. cbn [snd]. destruct cur; reflexivity.
+  unfold new_session, install. cbn zeta.
+  destruct (sess_get c (hs (remove_expired_sessions c s)) na) as [h1 cur]. cbn [snd]. destruct cur; reflexivity.
 Qed.
 
 Lemma install_frame c s na se :
@@ -71,38 +73,39 @@ Lemma install_frame c s na se :
   SessN na se (hs s) (hs s') /\ UPres (hs s) (hs s') /\ active (hs s') = active (hs s) /\ outs s' = outs s.
 Proof.
   cbn zeta. unfold install.
-  pose proof (QH_sess_get (hs s) na) as Hg. pose proof (sess_get_got (hs s) na) as Hgot.
-  pose proof (sess_get_In (hs s) na) as Hin. pose proof (sess_get_snd (hs s) na) as Hsnd.
-  pose proof (active_sess_get (hs s) na) as Hact.
-  destruct (sess_get (hs s) na) as [h1 cur]. cbn [fst snd] in Hg, Hgot, Hin, Hsnd, Hact.
-  destruct Hg as [_ [_ Ug]].
+  pose proof (QH_sess_get c (hs s) na) as Hg. pose proof (sess_get_got c (hs s) na) as Hgot.
+  pose proof (sess_get_stored c (hs s) na) as Hst.
+  pose proof (active_sess_get c (hs s) na) as Hact.
+  destruct (sess_get c (hs s) na) as [h1 cur]. cbn [fst snd] in Hg, Hgot, Hst, Hact.
+  destruct Hg as [_ [Dg Ug]].
   destruct cur as [cs |].
   - split; [| split; [| split; [cbn; exact Hact | reflexivity]]].
-    + intros na' se' H. cbn [hs with_hs sess_put sessions set_sessions] in H.
+    + destruct (Hst _ eq_refl) as [s00 [Eg [_ Et]]]. subst cs.
+      intros na' se' H. cbn [hs with_hs sess_put sessions set_sessions] in H.
       apply In_alist_set in H. destruct H as [H | H].
-      * inversion H; subst na' se'. left. exists cs. split; [apply Hin; apply Hgot; reflexivity |].
+      * inversion H; subst na' se'. left. exists s00. split; [apply alist_get_In; exact Eg |].
         split; [cbn; lia |]. intros k Hk. unfold sess_keys in Hk. cbn in Hk.
         destruct Hk as [Hk | [Hk | [Hk | [Hk | []]]]]; subst k.
         -- right. split; [reflexivity | left; reflexivity].
         -- right. split; [reflexivity | right; left; reflexivity].
         -- left. left. reflexivity.
         -- left. right. left. reflexivity.
-      * left. exists se'. split; [apply Hin; exact H | split; [lia |]]. intros k Hk. left. exact Hk.
+      * left. destruct (Dg _ _ H) as [se0 [H1 [H2 H3]]].
+        exists se0. split; [exact H1 | split; [exact H3 |]]. intros k Hk. left. apply H2. exact Hk.
     + intros HU. apply Ug in HU. unfold SessUniq in *.
       cbn [hs with_hs sess_put sessions set_sessions]. rewrite alist_set_keys; [exact HU |].
       apply in_map_iff. exists (na, cs). split; [reflexivity | apply Hgot; reflexivity].
   - split; [| split; [| split; [cbn; exact Hact | reflexivity]]].
     + intros na' se' H. cbn [hs with_hs sess_insert sessions set_sessions] in H.
-      assert (H' : In (na', se') (alist_remove na (sessions h1) ++ [(na, se)])).
+      assert (H' : In (na', se') (alist_remove na (sessions h1) ++ [(na, touch se (cfg_clock c))])).
       { destruct (Nat.ltb _ _); [apply tl_In |]; exact H. }
       apply in_app_or in H'. destruct H' as [H' | [H' | []]].
-      * apply In_alist_remove in H'. left. exists se'. split; [apply Hin; exact H' | split; [lia |]].
-        intros k Hk. left. exact Hk.
-      * inversion H'; subst na' se'. right. split; [reflexivity | split; [| apply sess_desc_refl]].
-        intros se0 H0. symmetry in Hsnd. exact (alist_get_None _ _ Hsnd _ H0).
+      * apply In_alist_remove in H'. left. destruct (Dg _ _ H') as [se0 [H1 [H2 H3]]].
+        exists se0. split; [exact H1 | split; [exact H3 |]]. intros k Hk. left. apply H2. exact Hk.
+      * inversion H'; subst na' se'. right. split; [reflexivity | apply touch_desc].
     + intros HU. apply Ug in HU. unfold SessUniq in *.
       cbn [hs with_hs sess_insert sessions set_sessions].
-      pose proof (to_back_NoDup na se _ HU) as HN.
+      pose proof (to_back_NoDup na (touch se (cfg_clock c)) _ HU) as HN.
       destruct (Nat.ltb _ _); [| exact HN]. rewrite map_tl'. apply NoDup_tl. exact HN.
 Qed.
 
@@ -113,12 +116,21 @@ Proof.
   eapply J_SessN; [exact HJ | exact HN | exact HU | apply ActSubP_same; exact HA | exact HF].
 Qed.
 
+(* the purge: sessions only disappear, one event *)
+Lemma JP_remove_expired_sessions c s : JP s (remove_expired_sessions c s).
+Proof.
+  intros hist G HJ. destruct (QuietF_remove_expired c s) as [Hq Ho].
+  eapply JJ_events; [exact HJ | exact Hq | | eapply OutsExt_weaken; [apply failed_out_none | exact Ho]].
+  apply ActSubP_same. destruct (remove_expired_sessions_hs c s) as [E | E]; rewrite E; reflexivity.
+Qed.
+
 Lemma JJ_new_session hist G c s na se skip now :
   JJ hist G s -> KeysFresh G se -> JJ hist (G ++ sess_keys se) (new_session c s na se skip now).
 Proof.
-  intros HJ HF. rewrite new_session_install. pose proof (JJ_install hist G c s na se HJ HF) as Hi.
-  destruct (snd (sess_get (hs s) na)).
-  - cbn zeta. destruct (fix_d2a c).
+  intros HJ HF. rewrite new_session_install. cbn zeta.
+  pose proof (JJ_install hist G c _ na se (JP_remove_expired_sessions c s hist G HJ) HF) as Hi.
+  destruct (snd (sess_get c (hs (remove_expired_sessions c s)) na)).
+  - destruct (fix_d2a c).
     + apply JP_send_pending_requests. apply JP_replay. exact Hi.
     + apply JP_replay. exact Hi.
   - apply JP_send_pending_requests. exact Hi.
@@ -135,7 +147,7 @@ Definition hc_keys (c : config) (s : st) (src : addr) (n : nonce) (cd : N) : lis
     | None => []
     | Some (na, r) =>
       if negb (N.eqb (snd na) src) then [] else
-      if rc_hs_sent r then [] else
+      if rc_hs_sent r || c_ed (rc_contact r) then [] else
       let eph := snd (fst (pop_pk (dr s))) in
       let X := c_id (rc_contact r) in
       [mk_key eph X cd (cfg_local c) X false; mk_key eph X cd (cfg_local c) X true]
@@ -198,7 +210,7 @@ Proof.
   { intros _. apply JJ_G_nil.
     apply JJ_with_hs_QH; [exact HJ | eapply QH_trans; [exact Hq | apply QH_ar_insert] |].
     eapply ActSubP_trans; [exact Ha | apply ActSubP_ar_insert; exact Hpk]. }
-  destruct (rc_hs_sent r).
+  destruct (rc_hs_sent r || c_ed (rc_contact r)).
   { intros _. apply JJ_G_nil. apply JP_fail_request.
     destruct (fix_d6 c); [apply JJ_remove_expected |]; exact H1. }
   cbn zeta. set (ct := rc_contact r).
@@ -219,9 +231,9 @@ Proof.
     apply JJ_with_hs; [exact H1 | apply SessD_same; reflexivity | apply UPres_same; reflexivity |].
     apply ActSubP_ar_insert. unfold PktOK. rewrite Er'. intros []. }
   destruct (c_enr ct) as [e |].
-  - assert (HFse : KeysFresh G {| s_enc := ke; s_dec := kd; s_old := None; s_await := None; s_counter := 0 |}).
+  - assert (HFse : KeysFresh G {| s_enc := ke; s_dec := kd; s_old := None; s_await := None; s_counter := 0; s_used := 0 |}).
     { intros k Hk. apply HF. exact Hk. }
-    change [ke; kd] with (sess_keys {| s_enc := ke; s_dec := kd; s_old := None; s_await := None; s_counter := 0 |}).
+    change [ke; kd] with (sess_keys {| s_enc := ke; s_dec := kd; s_old := None; s_await := None; s_counter := 0; s_used := 0 |}).
     apply JJ_new_session; [| exact HFse].
     apply JJ_emit_event. apply H4. reflexivity.
   - destruct (pop_rid _) as [irid d''].
@@ -229,9 +241,9 @@ Proof.
       pose proof (JP_send_request c s5 ct false irid 0 now hist G) as H6;
       destruct (send_request c s5 ct false irid 0 now) as [s6 ok] end.
     cbn [fst] in H6.
-    assert (HFse : KeysFresh G {| s_enc := ke; s_dec := kd; s_old := None; s_await := Some irid; s_counter := 0 |}).
+    assert (HFse : KeysFresh G {| s_enc := ke; s_dec := kd; s_old := None; s_await := Some irid; s_counter := 0; s_used := 0 |}).
     { intros k Hk. apply HF. exact Hk. }
-    change [ke; kd] with (sess_keys {| s_enc := ke; s_dec := kd; s_old := None; s_await := Some irid; s_counter := 0 |}).
+    change [ke; kd] with (sess_keys {| s_enc := ke; s_dec := kd; s_old := None; s_await := Some irid; s_counter := 0; s_used := 0 |}).
     apply JJ_new_session; [| exact HFse].
     apply H6. apply (JJ_dr hist G _ d''). apply H4. reflexivity.
 Qed.
@@ -269,7 +281,7 @@ Proof.
   assert (H0 : JJ hist G (tick c h now d)).
   { apply (tick_JP c h now d hist G).
     unfold JJ. cbn [outs hs]. rewrite app_nil_r. exact HJ. }
-  exact (JJ_dispatch hist G c (tick c h now d) e now H0 HF).
+  exact (JJ_dispatch hist G (with_clock c now) (tick c h now d) e now H0 HF).
 Qed.
 
 (* "Key terms are not installed twice": the keys each accepted handshake (a function of the peer's
